@@ -36,6 +36,10 @@ pub struct Entry {
 
 pub type PathKey = Vec<Vec<u8>>;
 
+/// `mtime.0` value meaning "the source reports no modification time" (out of range for a timestamp,
+/// so the node gets `mtime: None`)
+pub const NO_MTIME: i64 = i64::MIN;
+
 /// Ordered tree: key = path components (bytes). BTreeMap order on Vec<Vec<u8>> is exactly the
 /// depth-first, byte-ordered order `TreeIterator` expects (a directory sorts directly before its
 /// children, children before the directory's later siblings).
